@@ -1,8 +1,9 @@
 (* C42 — Go identifiers derived from schemas are valid and unique.
    Statements only; each closed by [exact] of a lemma proved in CodeGen/NamesP.v
    or CodeGen/UniqueP.v, or a computed witness. *)
-From Coq Require Import List NArith Bool.
+From Coq Require Import List NArith ZArith Bool Lia.
 From PB Require Import Base.PBytes CodeGen.NamesModel CodeGen.NamesP CodeGen.UniqueModel CodeGen.UniqueP CodeGen.OpaqueModel.
+From PB Require Import Base.GoInt Gen.StrsGo CodeGen.StrsGoBase CodeGen.StrsTrimModel CodeGen.StrsGoP.
 Import ListNotations.
 Open Scope N_scope.
 
@@ -179,3 +180,70 @@ Proof.
   intros H. apply nodupb_nodup in H. vm_compute in H. discriminate.
 Qed.
 Print Assumptions C42_opaque_oneof_collision_refuted.
+
+(* ---------- Tier T: internal/strs/strings.go as translated by srcmodel_strs (Gen/StrsGo.v) ----------
+   [zb s] is the string s as the translation sees it (list of byte values in Z);
+   [go_len_ok s] says len(s) < 2^63, which holds for every Go string. *)
+Theorem C42_go_isASCII_eq_model :
+  forall c, go_isASCIILower (zc c) = is_lower c /\ go_isASCIIUpper (zc c) = is_upper c /\
+            go_isASCIIDigit (zc c) = is_digit c.
+Proof. exact go_isASCII_eq. Qed.
+Print Assumptions C42_go_isASCII_eq_model.
+Theorem C42_go_GoCamelCase_eq_model :
+  forall s, go_len_ok s -> go_GoCamelCase (zb s) = Val (zb (go_camel_case s)).
+Proof. exact go_GoCamelCase_eq. Qed.
+Print Assumptions C42_go_GoCamelCase_eq_model.
+Theorem C42_go_JSONCamelCase_eq_model :
+  forall s, go_len_ok s -> go_JSONCamelCase (zb s) = Val (zb (json_camel_case s)).
+Proof. exact go_JSONCamelCase_eq. Qed.
+Print Assumptions C42_go_JSONCamelCase_eq_model.
+Theorem C42_go_JSONSnakeCase_eq_model :
+  forall s, go_len_ok s -> go_JSONSnakeCase (zb s) = Val (zb (json_snake_case s)).
+Proof. exact go_JSONSnakeCase_eq. Qed.
+Print Assumptions C42_go_JSONSnakeCase_eq_model.
+(* the translated source never panics (index out of range) and its loops never
+   exhaust their fuel *)
+Theorem C42_go_strs_never_panic :
+  forall s, go_len_ok s ->
+  (exists o, go_GoCamelCase (zb s) = Val o) /\ (exists o, go_JSONCamelCase (zb s) = Val o) /\
+  (exists o, go_JSONSnakeCase (zb s) = Val o).
+Proof. exact go_strs_total. Qed.
+Print Assumptions C42_go_strs_never_panic.
+(* the translated GoCamelCase maps every protobuf identifier to an exported Go identifier *)
+Theorem C42_go_GoCamelCase_exported_identifier :
+  forall s, go_len_ok s -> proto_ident s = true ->
+  exists c r, go_GoCamelCase (zb s) = Val (zb (c :: r)) /\ go_isASCIIUpper (zc c) = true /\
+              forallb is_letter_digit_b (c :: r) = true.
+Proof. exact go_GoCamelCase_exported_identifier. Qed.
+Print Assumptions C42_go_GoCamelCase_exported_identifier.
+(* the translated JSONSnakeCase inverts the translated JSONCamelCase exactly on snake_ok *)
+Theorem C42_go_snake_camel_inverse :
+  forall s, go_len_ok s ->
+  (bind (go_JSONCamelCase (zb s)) go_JSONSnakeCase = Val (zb s) <-> snake_ok s = true).
+Proof. exact go_snake_camel_inverse. Qed.
+Print Assumptions C42_go_snake_camel_inverse.
+Example C42_go_nonvacuous :
+  go_len_ok [ "_"; "f"; "o"; "o"; "_"; "b"; "1" ]%byte /\
+  go_GoCamelCase (zb [ "_"; "f"; "o"; "o"; "_"; "b"; "1" ]%byte) = Val (zb [ "X"; "F"; "o"; "o"; "B"; "1" ]%byte) /\
+  go_GoCamelCase (zb [ "a"; "."; "b"; "."; "_"; "c"; "_" ]%byte) = Val (zb [ "A"; "B"; "_"; "X"; "C"; "_" ]%byte) /\
+  go_JSONCamelCase (zb [ "a"; "_"; "b"; "_"; "_"; "1" ]%byte) = Val (zb [ "a"; "B"; "1" ]%byte) /\
+  go_JSONSnakeCase (zb [ "a"; "B"; "c" ]%byte) = Val (zb [ "a"; "_"; "b"; "c" ]%byte).
+Proof. unfold go_len_ok. repeat split; reflexivity. Qed.
+
+(* strs.TrimEnumPrefix as translated (loop with `continue`; unicode.ToLower(rune(byte)) and
+   strings.TrimLeft(s, "_") enter through the hand-written CodeGen/StrsGoBase.v, compared with
+   the library on every run): equals the hand model on all strings, never panics, returns a
+   suffix of the value name, and never the empty string for a non-empty name *)
+Theorem C42_go_TrimEnumPrefix_eq_model :
+  forall s prefix, go_TrimEnumPrefix (zb s) (zb prefix) = Val (zb (trim_enum_prefix s prefix)).
+Proof. exact go_TrimEnumPrefix_eq. Qed.
+Print Assumptions C42_go_TrimEnumPrefix_eq_model.
+Theorem C42_go_TrimEnumPrefix_suffix_nonempty :
+  forall s prefix, exists p o, go_TrimEnumPrefix (zb s) (zb prefix) = Val (zb o) /\ s = p ++ o /\ (s <> [] -> o <> []).
+Proof. exact go_TrimEnumPrefix_suffix_nonempty. Qed.
+Print Assumptions C42_go_TrimEnumPrefix_suffix_nonempty.
+Example C42_go_trim_nonvacuous :
+  go_TrimEnumPrefix (zb [ "F"; "O"; "O"; "_"; "B"; "A"; "R" ]%byte) (zb [ "f"; "o"; "o" ]%byte) = Val (zb [ "B"; "A"; "R" ]%byte) /\
+  go_TrimEnumPrefix (zb [ "F"; "O"; "O"; "_" ]%byte) (zb [ "f"; "o"; "o" ]%byte) = Val (zb [ "F"; "O"; "O"; "_" ]%byte) /\
+  go_TrimEnumPrefix (zb [ "F"; "_"; "O"; "x" ]%byte) (zb [ "f"; "o"; "o" ]%byte) = Val (zb [ "F"; "_"; "O"; "x" ]%byte).
+Proof. repeat split; reflexivity. Qed.
